@@ -209,6 +209,7 @@ def jobs(tier, seed):
 
 
 META = {
+    "fp_lemma": True,
     "expected_covers": {"roundtrip": ["written", "reloaded", "rewritten"], "discinfo_roundtrip": ["written", "reloaded"]},
     "assumptions": [
         "INI text layer: accessor methods of the real parser object are modelled on its own dictionaries (psx/stubs.py); written text is a DocText holding the ordered "
